@@ -53,6 +53,7 @@ def main():
     ap.add_argument("--base", type=int, default=777)
     ap.add_argument("--child", action="store_true")
     ap.add_argument("--module")
+    ap.add_argument("--out")
     a = ap.parse_args()
     modname = a.module or f"checks.{a.id.lower()}"
     mod = importlib.import_module(modname)
@@ -61,21 +62,26 @@ def main():
     seeds = [derive_seed(a.base, "det", i) for i in range(a.seeds)]
     if a.child:
         res = collect(check, seeds, 16, 7)
-        json.dump({str(k): v for k, v in res.items()}, sys.stdout)
+        with open(a.out, "w") as f:
+            json.dump({str(k): v for k, v in res.items()}, f)
         return 0
     r1 = collect(check, seeds, 16, 5)
     r2 = collect(check, list(reversed(seeds)), 3, 1)
     env = dict(os.environ, PYTHONHASHSEED="12345")
+    outf = f"/dev/shm/det-{os.getpid()}.json"
     p = subprocess.run([sys.executable, os.path.abspath(__file__), a.id, "--seeds", str(a.seeds), "--base",
-                        str(a.base), "--child"] + (["--module", a.module] if a.module else []),
+                        str(a.base), "--child", "--out", outf] + (["--module", a.module] if a.module else []),
                        capture_output=True, text=True, env=env, timeout=3600)
     if p.returncode != 0:
         print(p.stderr[-3000:])
         print("DETERMINISM: child interpreter failed")
         return 2
-    r3 = {int(k): tuple(v) if isinstance(v, list) else v for k, v in json.loads(p.stdout).items()}
+    with open(outf) as f:
+        r3 = {int(k): tuple(v) if isinstance(v, list) else v for k, v in json.load(f).items()}
+    os.unlink(outf)
     bad = 0
     errs = 0
+    skipped = 0
     for s in seeds:
         a1, a2, a3 = r1.get(s), r2.get(s), r3.get(s)
         a3 = tuple(a3) if a3 is not None else None
@@ -84,12 +90,16 @@ def main():
         n3 = json.dumps(a3)
         if a1 and a1[0] == "HARNESS-ERROR":
             errs += 1
+        wall = any(x is not None and len(x) > 3 and x[3] == "truthful-solver-wall-timeout" for x in (a1, a2, a3))
+        if wall:
+            skipped += 1  # a real solver binary exceeded the harness' wall limit in one execution: not a replayable run
+            continue
         if not (n1 == n2 == n3):
             bad += 1
             if bad <= 5:
                 print(f"seed {s}:\n  A {n1}\n  B {n2}\n  C {n3}")
     print(f"DETERMINISM {a.id}: {len(seeds)} seeds x 3 executions (16 jobs/5 per fork; 3 jobs/1 per fork reversed order; "
-          f"fresh interpreter PYTHONHASHSEED=12345 16 jobs/7 per fork): {bad} divergent, {errs} harness errors")
+          f"fresh interpreter PYTHONHASHSEED=12345 16 jobs/7 per fork): {bad} divergent, {errs} harness errors, {skipped} skipped (wall-clock solver limit)")
     return 0 if bad == 0 and errs == 0 else 2
 
 
